@@ -53,12 +53,29 @@ def variant_switches(body, crate, adt_suffix):
 
 def check_jumpset(crate, opt, vm, rep, cfg):
     sw = variant_switches(opt, crate, "instructions::Instruction")
-    multi = [(sb, l) for sb, l in sw if len(l) > 1 or (set(l) & JUMP_REVIEWED)]
+    multi = [(sb, l, None) for sb, l in sw if len(l) > 1 or (set(l) & JUMP_REVIEWED)]
+    # the same enumeration factored into an accessor: a call from optimize to a crate-local `fn(&self / &mut self) -> Option<..>` on
+    # Instruction; its variant set is the set for which it is definitely Some (table read off the accessor's MIR)
+    from engine import option_table
+    import rrec
+    iadt = crate.adts.get("parsing::instructions::Instruction")
+    for bb, t in opt.calls():
+        h = crate.bodies.get(callee_def(t))
+        if h is None or h is opt or h.kind == "closure" or h.arg_count != 1 or not h.local_ty(0).startswith("std::option::Option<"):
+            continue
+        if "instructions::Instruction" not in h.local_ty(1) or iadt is None:
+            continue
+        tab = option_table(h, iadt)
+        some = {v for v, o in tab.items() if o == "some"}
+        maybe = {v for v, o in tab.items() if o == "maybe"}
+        if some and not maybe:
+            for sb2, tgt2 in rrec.ok_edges_of_call(opt, crate, bb):
+                multi.append((bb, {v: tgt2 for v in some}, tgt2))
     tr = Tracer(opt)
     mark, fix = None, None
-    for sb, listed in multi:
+    for sb, listed, via in multi:
         tgt = next(iter(listed.values()))
-        region = opt.reach_from(tgt, removed_blocks=frozenset([sb]))
+        region = opt.reach_from(tgt, removed_blocks=frozenset([sb])) if via is None else {x for x in opt.reach_from(via) if opt.dominates(via, x)}
         # marking loop: writes a Vec<bool>; fix-up loop: assigns through the payload reference
         writes_bool = any("Vec<bool>" in (t["atys"][0] if t["atys"] else "") for bb, t in find_calls(opt, ["std::ops::IndexMut::index_mut"], blocks=sorted(region)))
         if writes_bool and mark is None:
